@@ -5245,9 +5245,11 @@ class NetCDFWrite(IOWrite):
         elif fmt in netcdf3_fmts:
             if compress:
                 raise ValueError(f"Can't compress {fmt} format file")
-            if group in netcdf3_fmts:
-                # Can't write groups to a netCDF3 file
-                g["group"] = False
+
+        if fmt != "NETCDF4":
+            # Can't write groups to a netCDF3 file, nor to a file of
+            # the netCDF4 classic model
+            g["group"] = False
 
         # ------------------------------------------------------------
         # Set up global/non-global attributes
